@@ -14,7 +14,7 @@
 typedef struct { char s[120]; } res_t;
 typedef void (*opf)(void *c, res_t *r);
 typedef struct { const char *label; opf f; } cop_t;
-typedef struct { const char *name; void *(*make)(int init); void (*digest)(void *c, char *out); void (*destroy)(void *c); void *(*mutex)(void *c); cop_t *ops; int nops; } cont_t;
+typedef struct { const char *name; void *(*make)(int init); void (*digest)(void *c, char *out); void (*destroy)(void *c); void *(*mutex)(void *c); cop_t *ops; int nops; int ninit; } cont_t;
 static void rfmt(res_t *r, const char *fmt, ...) { va_list ap; va_start(ap, fmt); vsnprintf(r->s, sizeof r->s, fmt, ap); va_end(ap); }
 static void radd(res_t *r, const char *fmt, ...) { size_t l = strlen(r->s); va_list ap; va_start(ap, fmt); vsnprintf(r->s + l, sizeof r->s - l, fmt, ap); va_end(ap); }
 
@@ -37,8 +37,8 @@ static void v_lockedwalk(void *c, res_t *r) { V->lock(V); qvector_obj_t o; memse
 static cop_t V_OPS[] = {{"addlast", v_addlast}, {"addfirst", v_addfirst}, {"addat(1)", v_addat1}, {"removefirst", v_removefirst}, {"poplast", v_poplast}, {"getfirst(newmem)", v_getfirst}, {"setlast", v_setlast}, {"toarray", v_toarray}, {"clear", v_clear}, {"lock;walk;unlock", v_lockedwalk}};
 
 /* ------------------------------------------------------------ qlist */
-static void *l_make(int init) { qlist_t *l = qlist(QLIST_THREADSAFE); if (init) { l->addlast(l, "a", 2); l->addlast(l, "b", 2); } return l; }
-static void l_digest(void *c, char *out) { qlist_t *l = c; char *p = out; p += sprintf(p, "n=%zu ds=%zu:", l->size(l), l->datasize(l)); char *s = l->tostring(l); p += sprintf(p, "%s", s ? s : "-"); free(s); }
+static void *l_make(int init) { qlist_t *l = qlist(QLIST_THREADSAFE); if (init == 1) { l->addlast(l, "a", 2); l->addlast(l, "b", 2); } if (init == 2) { l->addlast(l, "a", 2); l->setsize(l, 2); } return l; }
+static void l_digest(void *c, char *out) { qlist_t *l = c; char *p = out; p += sprintf(p, "n=%zu ds=%zu max=%zu:", l->size(l), l->datasize(l), l->max); char *s = l->tostring(l); p += sprintf(p, "%s", s ? s : "-"); free(s); }
 static void l_destroy(void *c) { ((qlist_t *)c)->free(c); }
 static void *l_mutex(void *c) { return ((qlist_t *)c)->qmutex; }
 #define L ((qlist_t *)c)
@@ -53,12 +53,13 @@ static void l_toarray(void *c, res_t *r) { size_t n = 99; char *a = L->toarray(L
 static void l_tostring(void *c, res_t *r) { char *s = L->tostring(L); rfmt(r, "%s", s ? s : "NULL"); free(s); }
 static void l_clear(void *c, res_t *r) { L->clear(L); rfmt(r, "ok"); }
 static void l_reverse(void *c, res_t *r) { L->reverse(L); rfmt(r, "ok"); }
+static void l_setsize1(void *c, res_t *r) { rfmt(r, "%zu", L->setsize(L, 1)); }
 static void l_lockedwalk(void *c, res_t *r) { L->lock(L); qlist_obj_t o; memset(&o, 0, sizeof o); rfmt(r, "w:"); int n = 0; while (L->getnext(L, &o, false) && n++ < 10) radd(r, "%s,", (char *)o.data); L->unlock(L); }
-static cop_t L_OPS[] = {{"addlast", l_addlast}, {"addfirst", l_addfirst}, {"addat(1)", l_addat1}, {"popfirst", l_popfirst}, {"poplast", l_poplast}, {"getfirst(newmem)", l_getfirst}, {"removelast", l_removelast}, {"toarray", l_toarray}, {"tostring", l_tostring}, {"clear", l_clear}, {"reverse", l_reverse}, {"lock;walk;unlock", l_lockedwalk}};
+static cop_t L_OPS[] = {{"addlast", l_addlast}, {"addfirst", l_addfirst}, {"addat(1)", l_addat1}, {"popfirst", l_popfirst}, {"poplast", l_poplast}, {"getfirst(newmem)", l_getfirst}, {"removelast", l_removelast}, {"toarray", l_toarray}, {"tostring", l_tostring}, {"clear", l_clear}, {"reverse", l_reverse}, {"setsize(1)", l_setsize1}, {"lock;walk;unlock", l_lockedwalk}};
 
 /* ------------------------------------------------------------ qqueue / qstack (thin layers over qlist, no lock() of their own) */
 static int QS_STACK;
-static void *qs_make(int init) { if (QS_STACK) { qstack_t *s = qstack(QSTACK_THREADSAFE); if (init) { s->pushstr(s, "a"); s->pushstr(s, "b"); } return s; } qqueue_t *q = qqueue(QQUEUE_THREADSAFE); if (init) { q->pushstr(q, "a"); q->pushstr(q, "b"); } return q; }
+static void *qs_make(int init) { if (QS_STACK) { qstack_t *s = qstack(QSTACK_THREADSAFE); if (init == 1) { s->pushstr(s, "a"); s->pushstr(s, "b"); } if (init == 2) { s->pushstr(s, "a"); s->setsize(s, 2); } return s; } qqueue_t *q = qqueue(QQUEUE_THREADSAFE); if (init == 1) { q->pushstr(q, "a"); q->pushstr(q, "b"); } if (init == 2) { q->pushstr(q, "a"); q->setsize(q, 2); } return q; }
 static qlist_t *qs_list(void *c) { return QS_STACK ? ((qstack_t *)c)->list : ((qqueue_t *)c)->list; }
 static void qs_digest(void *c, char *out) { l_digest(qs_list(c), out); }
 static void qs_destroy(void *c) { if (QS_STACK) ((qstack_t *)c)->free(c); else ((qqueue_t *)c)->free(c); }
@@ -141,6 +142,7 @@ static int set_container(const char *name) {
     else if (!strcmp(name, "qlisttbl-unique")) { LT_UNIQUE = 1; CONT = (cont_t){"qlisttbl-unique", lt_make, lt_digest, lt_destroy, lt_mutex, LT_OPS, NOPS_OF(LT_OPS)}; }
     else return -1;
     (void)qs_size;
+    CONT.ninit = (!strcmp(name, "qlist") || !strcmp(name, "qqueue") || !strcmp(name, "qstack")) ? 3 : 2;   /* third initial state: one element, size limit 2 */
     return 0;
 }
 
@@ -277,7 +279,7 @@ static void enumerate(int shape, int PB, long shard, long nshards) {
     int nt = shape == 111 ? 3 : 2, n0 = shape == 11 ? 1 : shape == 111 ? 1 : 2, n1 = shape == 22 ? 2 : 1, n2 = 1;
     int slots = shape == 111 ? 3 : n0 + n1; long tot = 1; for (int i = 0; i < slots; i++) tot *= CONT.nops;
     long idx = 0;
-    for (int init = 0; init < 2; init++) for (long x = 0; x < tot; x++) {
+    for (int init = 0; init < CONT.ninit; init++) for (long x = 0; x < tot; x++) {
         if (idx++ % nshards != shard) continue;
         if (vc_deadline_hit()) return;
         long y = x; memset(&P, 0, sizeof P); P.nt = nt; P.init = init; P.nop[0] = n0; P.nop[1] = n1; if (nt == 3) P.nop[2] = n2;
